@@ -28,6 +28,38 @@ def random_graph(rnd, n):
     return n, [sorted(e) for e in edges]
 
 
+def bushy_tree(rnd):
+    """a rooted tree whose sibling subtrees come from a small catalogue with repetition (so isomorphic siblings and one odd class out
+    are common -- what symmetricLayout pairs off, centres and flips), numbered in random order so that the harness's index-derived node
+    sizes differ between isomorphic copies; sometimes hung on a triangle so that the tree has a proper core"""
+    SHAPES = ([], [[]], [[], []], [[], [], []], [[[]]], [[[], []]], [[], [[]]], [[[]], [[]]], [[[], []], []])
+    def grow(depth):
+        if depth == 0:
+            return rnd.choice(SHAPES)
+        kids = []
+        cat = rnd.sample(SHAPES, rnd.randint(1, 3))
+        for _ in range(rnd.randint(2, 5)):
+            kids.append(rnd.choice(cat) if rnd.random() < 0.8 else grow(depth - 1))
+        return kids
+    tree = grow(rnd.randint(0, 1)) if rnd.random() < 0.7 else [grow(0) for _ in range(rnd.randint(3, 5))]
+    edges = []
+    cnt = [1]
+    def number(t, me):
+        for k in t:
+            cnt[0] += 1
+            c = cnt[0]
+            edges.append((me, c))
+            number(k, c)
+    number(tree, 1)
+    n = cnt[0]
+    if rnd.random() < 0.3:
+        edges += [(1, n + 1), (n + 1, n + 2), (n + 2, 1)]
+        n += 2
+    perm = list(range(1, n + 1))
+    rnd.shuffle(perm)
+    return n, [sorted((perm[a - 1], perm[b - 1])) for a, b in edges]
+
+
 def main(tier):
     ev = V.Evidence(PID, tier)
     vd = V.Verdict(PID, ev)
@@ -50,6 +82,12 @@ def main(tier):
     for _ in range(nrand):
         n, es = random_graph(rnd, rnd.randint(2, 60))
         lines.append('%d %d %s' % (n, len(es), ' '.join('%d %d' % (e[0], e[1]) for e in es)))
+    for _ in range(300 if quick else 6000):
+        n, es = bushy_tree(rnd)
+        if 2 <= n <= 60:
+            ws = rnd.choice([[4, 8, 20], [4, 40], [4, 4, 4, 60], [8, 12]])
+            sizes = ' '.join('%d %d' % (rnd.choice(ws), rnd.choice([4, 8])) for _ in range(n))
+            lines.append('%d %d %s %s' % (-n, len(es), ' '.join('%d %d' % (e[0], e[1]) for e in es), sizes))
     # disconnected graphs for the component clause
     for _ in range(nrand // 4):
         n1, e1 = random_graph(rnd, rnd.randint(1, 12))
